@@ -192,6 +192,7 @@ def _static(rng, nan_after=None):
     return S
 
 
+KF_CONTINUE = "DualStormerVerlet,Riks/continue_with_unconverged-ignored"
 SAYS_SO = re.compile(r"converge|failed|fails|returning|truncat|cannot treat|ignored|not supported|stopp", re.I)
 _FLOAT = re.compile(r"[-+]?(?:\d+\.\d*|\.\d+|\d+)(?:[eE][-+]?\d+)?")
 
@@ -263,6 +264,13 @@ def _run(ctx, make_solver, det, t_first_bad, step, cont, nrows_full, injected_si
         ctx.cls("natural:fsolve_failure_observed")
     if err is not None:
         ctx.cls(f"outcome:raised:{type(err).__name__}")
+        if cont and (injected_site is not None or det.get("failure_observed")) and str(det.get("solver")) != "assemble":
+            # (System.assemble is not a solver: its initial fixed point may refuse whatever the option says)
+            # 'with continue_with_unconverged enabled it warns and continues': an exception is loud, but it is not that
+            solver_ = str(det.get("solver"))
+            key = KF_CONTINUE if (solver_.startswith("DualStormerVerlet") or solver_ == "Riks") else None
+            ctx.violation(f"{solver_}.solve", "a failed iteration raises although continue_with_unconverged is enabled (all computed steps are lost)",
+                          {**det, "error": f"{type(err).__name__}: {err}"[:200]}, key=key)
         return "raised"
     t = np.asarray(sol.t, dtype=float)
     det["returned_rows"] = len(t)
